@@ -22,7 +22,7 @@ func concWriterJobs(tier string) []*Job {
 		nums = []int{2, 3, 4}
 	}
 	base := func(num, shape, bc, cc, fail, rfail int) map[string]int {
-		return P("num", num, "shape", shape, "n1", 20, "n2", 10, "fail", fail, "rfail", rfail, "handler", 1, "bc", bc, "cc", cc)
+		return P("num", num, "shape", shape, "n1", 20, "n2", 10, "fail", fail, "rfail", rfail, "handler", 1, "bc", bc, "cc", cc, "legacy", 0)
 	}
 	shapes := []int{0, 1, 2, 3, 4, 5, 6, 7, 8, 10, 11, 12}
 	for _, num := range nums {
@@ -45,6 +45,12 @@ func concWriterJobs(tier string) []*Job {
 			p["n1"], p["n2"] = x[1], x[2]
 			jobs = append(jobs, cmk("H_conc_w", d, p))
 		}
+	}
+	// legacy frames written concurrently (8 MiB block buffers, no checksums, no end mark)
+	for _, sh := range []int{0, 1, 3, 6} {
+		p := base(2, sh, 0, 0, -1, -1)
+		p["legacy"] = 1
+		jobs = append(jobs, cmk("H_conc_w", d, p))
 	}
 	// one full 64 KiB block and a tail through Write (the only way to a block without Flush)
 	big := cmk("H_conc_w", 1, base(2, 9, 1, 1, -1, -1))
@@ -70,12 +76,12 @@ func concWriterFaultJobs(tier string) []*Job {
 				maxFail = 7
 			}
 			for fail := 0; fail <= maxFail; fail++ {
-				jobs = append(jobs, cmk("H_conc_w", d, P("num", num, "shape", sh, "n1", 20, "n2", 10, "fail", fail, "rfail", -1, "handler", 1, "bc", fail%2, "cc", 1)))
+				jobs = append(jobs, cmk("H_conc_w", d, P("num", num, "shape", sh, "n1", 20, "n2", 10, "fail", fail, "rfail", -1, "handler", 1, "bc", fail%2, "cc", 1, "legacy", 0)))
 			}
 		}
 		for _, sh := range []int{5, 6} {
 			for rfail := 0; rfail <= 1; rfail++ {
-				jobs = append(jobs, cmk("H_conc_w", d+1, P("num", num, "shape", sh, "n1", 20, "n2", 10, "fail", -1, "rfail", rfail, "handler", 1, "bc", 1, "cc", 1)))
+				jobs = append(jobs, cmk("H_conc_w", d+1, P("num", num, "shape", sh, "n1", 20, "n2", 10, "fail", -1, "rfail", rfail, "handler", 1, "bc", 1, "cc", 1, "legacy", 0)))
 			}
 		}
 	}
@@ -93,7 +99,7 @@ func concReaderJobs(tier string) []*Job {
 		ks = []int{1, 2, 3, 4}
 	}
 	rp := func(num, k, mode, dmg, cut, reuse, legacy, bc, cc int) map[string]int {
-		return P("num", num, "k", k, "mode", mode, "dmg", dmg, "cut", cut, "handler", 1, "reuse", reuse, "legacy", legacy, "bc", bc, "cc", cc, "wfail", -1)
+		return P("num", num, "k", k, "mode", mode, "dmg", dmg, "cut", cut, "handler", 1, "reuse", reuse, "legacy", legacy, "bc", bc, "cc", cc, "wfail", -1, "mask", 0x55)
 	}
 	for _, num := range nums {
 		for _, k := range ks {
@@ -122,10 +128,33 @@ func concReaderJobs(tier string) []*Job {
 			}
 			jobs = append(jobs, cmk("H_conc_r", 2, rp(2, 2, mode, 1, cut, 0, 0, 1, 1)))
 			jobs = append(jobs, cmk("H_conc_r", 2, rp(2, 2, mode, 2, cut, 0, 0, 1, 1)))
+			// without a content checksum nothing after the end mark can catch a wrongly clean end
+			jobs = append(jobs, cmk("H_conc_r", 2, rp(2, 2, mode, 1, cut, 0, 0, cut%2, 0)))
+			jobs = append(jobs, cmk("H_conc_r", 2, rp(2, 2, mode, 2, cut, 0, 0, 1, 0)))
 		}
 	}
 	for cut := 0; cut <= 7; cut++ {
 		jobs = append(jobs, cmk("H_conc_r", 2, rp(2, 2, cut%3, 3, cut, 0, 0, 1, 1)))
+	}
+	// every single-bit flip of the low byte of each block-size word (a block that claims a few
+	// bytes more or less swallows or exposes the fields after it), frames without content checksum
+	for _, bc := range []int{0, 1} {
+		for _, k := range []int{1, 2} {
+			pos := []int{7}
+			if k == 2 {
+				pos = append(pos, 7+4+9+4*bc)
+			}
+			for _, p := range pos {
+				for bit := 0; bit < 8; bit++ {
+					if tier != "thorough" && bit >= 5 {
+						continue
+					}
+					q := rp(2, k, (bit+k)%3, 2, p, 0, 0, bc, 0)
+					q["mask"] = 1 << bit
+					jobs = append(jobs, cmk("H_conc_r", 1, q))
+				}
+			}
+		}
 	}
 	// Reset and reuse after a clean end and after an error
 	for _, dmg := range []int{0, 1, 2} {
@@ -202,10 +231,10 @@ func init() {
 				d, nums = 3, "2, 3, 4"
 			}
 			return []string{
-				fmt.Sprintf("Writer with ConcurrencyOption in {%s}, 64 KiB blocks, block/content checksum on/off, on-block-done callback installed; call sequences: Write Close | Write Flush Write Close | Write Flush Close | Write Close Reset Write Close | Write Close Close | ReadFrom Close | Write ReadFrom Close | Flush Close | Write Flush Write Flush Write Close | Write Flush Reset Write Close | Write Reset Write Close | Write Close Write Close | Write(64 KiB + 20) Close | ReadFrom(64 KiB + 20) Close; chunks of 20 and 10 concrete bytes (also empty chunks)", nums),
+				fmt.Sprintf("Writer with ConcurrencyOption in {%s}, 64 KiB blocks, block/content checksum on/off, on-block-done callback installed; call sequences: Write Close | Write Flush Write Close | Write Flush Close | Write Close Reset Write Close | Write Close Close | ReadFrom Close | Write ReadFrom Close | Flush Close | Write Flush Write Flush Write Close | Write Flush Reset Write Close | Write Reset Write Close | Write Close Write Close | Write(64 KiB + 20) Close | ReadFrom(64 KiB + 20) Close; chunks of 20 and 10 concrete bytes (also empty chunks); four of the sequences also with LegacyOption", nums),
 				fmt.Sprintf("every schedule with at most %d delays (writer faults and reuse: fewer, see job ids ...-dN) of the main goroutine, the ordering goroutine and the per-block goroutines", d),
 				"writer faults: the sink failing at call 0..5 (0..7 for three blocks), the ReadFrom source failing at call 0..1",
-				fmt.Sprintf("Reader with ConcurrencyOption in {%s} over frames of 1..3 (thorough 4) small blocks made by the sequential Writer; Read with 5-byte and 64 KiB buffers, WriteTo; truncation / byte flip at 10 (thorough: every) position(s) of the 2-block frame, source failing at call 0..7; Reset onto an intact frame after a clean end, after an error and after a WriteTo whose destination failed at call 0..2; legacy frame (sequential fallback); every sequence of 3 (thorough 4) calls of {Read small/big/empty, WriteTo, Size, Reset} including Reset before the end of the stream", nums),
+				fmt.Sprintf("Reader with ConcurrencyOption in {%s} over frames of 1..3 (thorough 4) small blocks made by the sequential Writer; Read with 5-byte and 64 KiB buffers, WriteTo; truncation / byte flip at 10 (thorough: every) position(s) of the 2-block frame, with and without content checksum, source failing at call 0..7; every single-bit flip (quick: bits 0..4) of the low byte of each block-size word of 1- and 2-block frames without content checksum; Reset onto an intact frame after a clean end, after an error and after a WriteTo whose destination failed at call 0..2; legacy frame (sequential fallback); every sequence of 3 (thorough 4) calls of {Read small/big/empty, WriteTo, Size, Reset} including Reset before the end of the stream", nums),
 				"hostile streams: 4..9 (thorough ..10) symbolic bytes after a valid header (and other H_stream shapes) read by a concurrent Reader, at most 1 delay",
 				"obligations on every explored run: no data race (happens-before), no access to a pooled buffer, no deadlock, every call returns, nothing left alive after Close / end / error once runnable goroutines have run, no callback after Close / end, blocks in submission order, frame well-formed for the reference parser",
 			}
